@@ -86,6 +86,9 @@ def run(rep, tier, seed):
     for bad in string_questions(le)[:1]:
         rep.violations.append({'key': 'strings', 'kind': 'strings', 'what': bad['what'], 'text': '%s / %s' % (bad['a'], bad['b'])})
     rep.count('string_question_sequences', 18)
+    for bad in producer_questions(le)[:1]:
+        rep.violations.append({'key': 'producers', 'kind': 'producers', 'what': bad['what'], 'text': '%s / %s' % (bad['a'], bad['b'])})
+    rep.count('producer_question_objects', 2 * 7 * 7)
     Ls = instances(le)
     rng = random.Random(seed)
     n = 12000 if tier == 'thorough' else 1200
@@ -184,8 +187,51 @@ def string_questions(le):
     return out
 
 
+def producer_questions(le):
+    """Expression objects as they come out of parse, dedup, simplify and combine_expressions are arguments like any other: the
+    answers for such an object are the answers for the text it was made from (dedup, simplify and combining a text with itself
+    keep the meaning: C06, C09) and for its own rendering."""
+    T0 = [le.LicenseSymbol('gpl-2.0', aliases=('gpl2',)), le.LicenseSymbol('mit'), le.LicenseSymbol('bsd-new'), le.LicenseSymbol('cp', is_exception=True)]
+    texts = ['mit OR (mit AND gpl-2.0)', 'mit AND (mit OR bsd-new)', '(mit AND gpl-2.0) AND bsd-new', 'mit or (gpl-2.0 and mit and gpl-2.0)',
+             'gpl-2.0 with cp or mit or gpl-2.0 with cp', 'bsd-new and (mit or (gpl-2.0 and (mit or gpl-2.0)))', 'mit']
+    probes = ['mit', 'gpl-2.0', 'bsd-new and mit', 'gpl-2.0 with cp', 'mit or gpl-2.0']
+    producers = [('parse', lambda L, t: L.parse(t)), ('dedup', lambda L, t: L.dedup(t)), ('parse+simplify', lambda L, t: L.parse(t).simplify()),
+                 ('dedup of an object', lambda L, t: L.dedup(L.parse(t))), ('simplify of dedup', lambda L, t: L.dedup(t).simplify()),
+                 ('combine_expressions', lambda L, t: le.combine_expressions([t, t], 'AND', licensing=L)),
+                 ('dedup of simplify', lambda L, t: L.dedup(L.parse(t).simplify()))]
+    out = []
+    for T in (T0, None):
+        new = (lambda: le.Licensing(T)) if T is not None else (lambda: le.Licensing())
+        L = new()
+        for t in texts:
+            for pname, prod in producers:
+                def ask(name, a, b, want, what):
+                    try:
+                        got = getattr(L, name)(a, b)
+                    except Exception as ex:   # noqa
+                        got = 'raised %r' % (ex,)
+                    if got != want:
+                        out.append({'what': '%s: %s(%s) is %r, expected %r (object from %s of %r on a Licensing over %r)'
+                                            % (what, name, ', '.join(x if isinstance(x, str) else '<object %s>' % x for x in (a, b)), got, want,
+                                               pname, t, None if T is None else [x.key for x in T]), 'a': t, 'b': pname})
+                obj = prod(L, t)
+                for name in ('is_equivalent', 'contains'):
+                    ask(name, obj, t, True, 'an object and the text it was made from')
+                    ask(name, t, obj, True, 'the text and the object made from it')
+                    ask(name, prod(L, t), str(obj), True, 'an object and its own rendering')
+                    ask(name, str(obj), prod(L, t), True, 'the rendering of an object and the object')
+                    for q in probes:
+                        F = new()
+                        ask(name, prod(L, t), q, getattr(F, name)(t, q), 'an object where its text stood')
+                        ask(name, q, prod(L, t), getattr(F, name)(q, t), 'an object where its text stood')
+    return out
+
+
 def replay(payload):
     le = imp()
+    if payload.get('kind') == 'producers':
+        bad = producer_questions(le)
+        return (not bad, bad[0]['what'] if bad else 'objects answer as their texts')
     if payload.get('kind') == 'strings':
         bad = string_questions(le)
         return (not bad, bad[0]['what'] if bad else 'strings answer as their parses')
